@@ -226,4 +226,118 @@ func (*Reader).readV2
     assert[h_trailer] forall k :: 0 <= k && k < 8 ==> abs(payload, base(payload) + trailerOff + k) == abs(trailerMagicData, base(trailerMagicData) + k) at return 10
     assert[h_payload] forall j :: base(payload) + 24 <= j && j < base(payload) + len(payload) ==> abs(payload, j) == rdB(r)[old(position) + 28 + j - base(payload) - 24] at return 10
 
+
+pred ksV1(b map[int]int, p int) := be32(b, p+16)
+pred vsV1(b map[int]int, p int) := be32(b, p+20)
+
+// a complete valid V1 record starts at p in a file of length n
+pred validV1(b map[int]int, n int, p int) :=
+    p >= 0 && p + 28 <= n
+    && ksV1(b, p) < 2147483648 && vsV1(b, p) < 2147483648 && ksV1(b, p) + vsV1(b, p) <= 67108864
+    && p + 28 + ksV1(b, p) + vsV1(b, p) <= n
+    && be32(b, p + 24) == crcOf(range(b, p + 28, ksV1(b, p) + vsV1(b, p)))
+
+func (*Reader).readV1
+    requires position >= 0 && isBytes(rdB(r)) && rdL(r) >= 0 && (r.ra != nil || r.r != nil)
+    requires[zeroed] msg.Key == nil && msg.Value == nil
+    split[mmap] r.ra != nil
+    split[file] r.ra == nil
+    assigns *msg
+    ensures[ok_valid]  err == nil ==> validV1(rdB(r), rdL(r), position)
+    ensures[next]      err == nil ==> nextPosition == position + 28 + ksV1(rdB(r), position) + vsV1(rdB(r), position)
+    ensures[offset]    err == nil ==> msg.Offset == s64(be64(rdB(r), position))
+    ensures[time]      err == nil ==> micro(msg.Time) == s64(be64(rdB(r), position + 8))
+    ensures[key]       err == nil ==> len(msg.Key) == ksV1(rdB(r), position)
+                           && (forall j :: base(msg.Key) <= j && j < base(msg.Key) + len(msg.Key) ==> abs(msg.Key, j) == rdB(r)[position + 28 + j - base(msg.Key)])
+    ensures[value]     err == nil ==> len(msg.Value) == vsV1(rdB(r), position)
+                           && (forall j :: base(msg.Value) <= j && j < base(msg.Value) + len(msg.Value) ==>
+                                   abs(msg.Value, j) == rdB(r)[position + 28 + ksV1(rdB(r), position) + j - base(msg.Value)])
+    ensures[nilkey]    err == nil && ksV1(rdB(r), position) == 0 ==> msg.Key == nil
+    ensures[nilvalue]  err == nil && vsV1(rdB(r), position) == 0 ==> msg.Value == nil
+    ensures[eof]       position == rdL(r) ==> is(err, io.EOF)
+    ensures[failed]    err != nil ==> nextPosition == -1
+    // V1 has an empty-payload corner: a record with ks = vs = 0 at the very end reads its (empty) payload
+    // without touching the file, so validity needs the explicit length clause of validV1
+    ensures[valid_ok]  validV1(rdB(r), rdL(r), position) ==> err == nil
+
+
+// ================================================================ writers against the same layout (C13)
+
+// big-endian fields of a byte buffer (absolute indices into the backing array)
+pred sb32(s []byte, k int) := abs(s, base(s)+k)*16777216 + abs(s, base(s)+k+1)*65536 + abs(s, base(s)+k+2)*256 + abs(s, base(s)+k+3)
+pred sb64(s []byte, k int) :=
+    abs(s, base(s)+k)*72057594037927936 + abs(s, base(s)+k+1)*281474976710656 + abs(s, base(s)+k+2)*1099511627776 + abs(s, base(s)+k+3)*4294967296
+    + abs(s, base(s)+k+4)*16777216 + abs(s, base(s)+k+5)*65536 + abs(s, base(s)+k+6)*256 + abs(s, base(s)+k+7)
+
+// type invariant of []byte made explicit
+pred bytesOK(s []byte) := forall j :: base(s) <= j && j < base(s) + len(s) ==> 0 <= abs(s, j) && abs(s, j) <= 255
+
+func (*Writer).writeV2
+    flags noframe
+    requires wrOK(w) && w.pos == fSize[w.f] && w.pos >= 0 && bytesOK(m.Key) && bytesOK(m.Value) && isBytes(fData[w.f])
+    // the scratch buffer is private to the writer
+    requires[private] w.buff == nil || (region(w.buff) != region(m.Key) && region(w.buff) != region(m.Value) && region(w.buff) != region(trailerMagicData))
+    assigns all
+    ensures[toobig]  len(m.Key) + len(m.Value) > 67108864 ==> ret1 != nil
+    // back to back: the record starts where the previous one ended, the writer position advances by the record size
+    ensures[pos]     ret1 == nil ==> ret0 == old(w.pos) && w.pos == old(w.pos) + 36 + len(m.Key) + len(m.Value) && w.pos == fSize[w.f]
+    // the bytes on disk are exactly those of the documented layout
+    ensures[valid]   ret1 == nil ==> validV2(fData[w.f], fSize[w.f], ret0)
+    ensures[offset]  ret1 == nil ==> be64(fData[w.f], ret0 + 4) == u64(m.Offset)
+    ensures[time]    ret1 == nil ==> be64(fData[w.f], ret0 + 12) == u64(micro(m.Time))
+    ensures[sizes]   ret1 == nil ==> ksV2(fData[w.f], ret0) == len(m.Key) && vsV2(fData[w.f], ret0) == len(m.Value)
+    ensures[key]     ret1 == nil ==> forall j :: base(m.Key) <= j && j < base(m.Key) + len(m.Key) ==> fData[w.f][ret0 + 28 + j - base(m.Key)] == abs(m.Key, j)
+    ensures[value]   ret1 == nil ==> forall j :: base(m.Value) <= j && j < base(m.Value) + len(m.Value) ==> fData[w.f][ret0 + 28 + len(m.Key) + j - base(m.Value)] == abs(m.Value, j)
+    // append-only: nothing written earlier changes
+    ensures[prefix]  forall i :: 0 <= i && i < old(w.pos) ==> fData[w.f][i] == old(fData[w.f][i])
+    // proof hints at the success return: the assembled buffer, field by field
+    assert[h_len]    len(w.buff) == 36 + len(m.Key) + len(m.Value) at return 3
+    assert[h_off]    sb64(w.buff, 4) == u64(m.Offset) at return 3
+    assert[h_time]   sb64(w.buff, 12) == u64(micro(m.Time)) at return 3
+    assert[h_ks]     sb32(w.buff, 20) == len(m.Key) at return 3
+    assert[h_vs]     sb32(w.buff, 24) == len(m.Value) at return 3
+    assert[h_key]    forall j :: base(m.Key) <= j && j < base(m.Key) + len(m.Key) ==> abs(w.buff, base(w.buff) + 28 + j - base(m.Key)) == abs(m.Key, j) at return 3
+    assert[h_value]  forall j :: base(m.Value) <= j && j < base(m.Value) + len(m.Value) ==> abs(w.buff, base(w.buff) + 28 + len(m.Key) + j - base(m.Value)) == abs(m.Value, j) at return 3
+    assert[h_trailer] abs(w.buff, base(w.buff) + 28 + len(m.Key) + len(m.Value)) == 222 && abs(w.buff, base(w.buff) + 29 + len(m.Key) + len(m.Value)) == 173
+                      && abs(w.buff, base(w.buff) + 30 + len(m.Key) + len(m.Value)) == 190 && abs(w.buff, base(w.buff) + 31 + len(m.Key) + len(m.Value)) == 239
+                      && abs(w.buff, base(w.buff) + 32 + len(m.Key) + len(m.Value)) == 254 && abs(w.buff, base(w.buff) + 33 + len(m.Key) + len(m.Value)) == 237
+                      && abs(w.buff, base(w.buff) + 34 + len(m.Key) + len(m.Value)) == 250 && abs(w.buff, base(w.buff) + 35 + len(m.Key) + len(m.Value)) == 206 at return 3
+    assert[h_file]   forall i :: old(w.pos) <= i && i < old(w.pos) + len(w.buff) ==> fData[w.f][i] == abs(w.buff, base(w.buff) + i - old(w.pos)) at return 3
+
+
+func (*Writer).writeV1
+    flags noframe
+    requires wrOK(w) && w.pos == fSize[w.f] && w.pos >= 0 && bytesOK(m.Key) && bytesOK(m.Value) && isBytes(fData[w.f])
+    requires[private] w.buff == nil || (region(w.buff) != region(m.Key) && region(w.buff) != region(m.Value))
+    assigns all
+    ensures[toobig]  len(m.Key) + len(m.Value) > 67108864 ==> ret1 != nil
+    ensures[pos]     ret1 == nil ==> ret0 == old(w.pos) && w.pos == old(w.pos) + 28 + len(m.Key) + len(m.Value) && w.pos == fSize[w.f]
+    ensures[valid]   ret1 == nil ==> validV1(fData[w.f], fSize[w.f], ret0)
+    ensures[offset]  ret1 == nil ==> be64(fData[w.f], ret0) == u64(m.Offset)
+    ensures[time]    ret1 == nil ==> be64(fData[w.f], ret0 + 8) == u64(micro(m.Time))
+    ensures[sizes]   ret1 == nil ==> ksV1(fData[w.f], ret0) == len(m.Key) && vsV1(fData[w.f], ret0) == len(m.Value)
+    ensures[key]     ret1 == nil ==> forall j :: base(m.Key) <= j && j < base(m.Key) + len(m.Key) ==> fData[w.f][ret0 + 28 + j - base(m.Key)] == abs(m.Key, j)
+    ensures[value]   ret1 == nil ==> forall j :: base(m.Value) <= j && j < base(m.Value) + len(m.Value) ==> fData[w.f][ret0 + 28 + len(m.Key) + j - base(m.Value)] == abs(m.Value, j)
+    ensures[prefix]  forall i :: 0 <= i && i < old(w.pos) ==> fData[w.f][i] == old(fData[w.f][i])
+    assert[h_len]    len(w.buff) == 28 + len(m.Key) + len(m.Value) at return 3
+    assert[h_off]    sb64(w.buff, 0) == u64(m.Offset) at return 3
+    assert[h_time]   sb64(w.buff, 8) == u64(micro(m.Time)) at return 3
+    assert[h_ks]     sb32(w.buff, 16) == len(m.Key) at return 3
+    assert[h_vs]     sb32(w.buff, 20) == len(m.Value) at return 3
+    assert[h_key]    forall j :: base(m.Key) <= j && j < base(m.Key) + len(m.Key) ==> abs(w.buff, base(w.buff) + 28 + j - base(m.Key)) == abs(m.Key, j) at return 3
+    assert[h_value]  forall j :: base(m.Value) <= j && j < base(m.Value) + len(m.Value) ==> abs(w.buff, base(w.buff) + 28 + len(m.Key) + j - base(m.Value)) == abs(m.Value, j) at return 3
+    assert[h_file]   forall i :: old(w.pos) <= i && i < old(w.pos) + len(w.buff) ==> fData[w.f][i] == abs(w.buff, base(w.buff) + i - old(w.pos)) at return 3
+
+// the size a message adds to a segment (C13): exactly what the writers advance the position by
+func Size
+    ensures[v1] v == V1 ==> ret0 == 28 + len(m.Key) + len(m.Value)
+    ensures[v2] v == V2 ==> ret0 == 36 + len(m.Key) + len(m.Value)
+    ensures[other] v != V1 && v != V2 ==> ret0 == 0
+
+// round trip (pure lemma over the layout): the fields a V2 reader decodes at p from bytes that satisfy the
+// writer's postcondition are the fields that were written
+lemma roundtripV2(b map[int]int, n int, p int, off int64, ks int, vs int)
+    requires isBytes(b) && validV2(b, n, p) && be64(b, p + 4) == u64(off) && ksV2(b, p) == ks && vsV2(b, p) == vs && ks >= 0 && vs >= 0
+    ensures  s64(be64(b, p + 4)) == off && p + 36 + ksV2(b, p) + vsV2(b, p) == p + 36 + ks + vs
+
 @*/
